@@ -92,7 +92,7 @@ func sRet(s string) BRet   { r := noRet(); r.T = "s"; r.S = bytesOf(s); return r
 var (
 	bBinary  = []string{"Add", "Sub", "Mul", "Quo", "Rem", "Div", "Mod", "And", "Or", "Xor", "AndNot", "GCD"}
 	bUnary   = []string{"Neg", "Abs", "Set", "Not", "Sqrt"}
-	bShift   = []string{"Lsh", "Rsh", "SetBit0", "SetBit1", "Exp"}
+	bShift   = []string{"Lsh", "Rsh", "SetBit0", "SetBit1", "Exp", "ExpMod"}
 	bTwo     = []string{"QuoRem", "DivMod"}
 	bSet     = []string{"SetInt64", "SetUint64", "SetString", "SetBytes", "MulRange", "Binomial"}
 	bRead    = []string{"Cmp", "CmpAbs", "Sign", "BitLen", "Bit", "TrailingZeroBits", "Int64", "Uint64", "IsInt64", "IsUint64", "String", "Text", "Bytes", "ProbablyPrime", "MarshalText", "MarshalJSON", "Format", "Append", "FillBytes", "GobEncode"}
@@ -165,6 +165,8 @@ func applyStep(regs []*apd.BigInt, mir []*big.Int, st *BStep) {
 			mz.SetBit(mx, st.Aux, 1)
 		case "Exp":
 			mz.Exp(mx, big.NewInt(int64(st.Aux)), nil)
+		case "ExpMod": // modulus from register y (0 means none), never the destination itself
+			mz.Exp(mx, big.NewInt(int64(st.Aux)), my)
 		case "QuoRem":
 			mz.QuoRem(mx, my, mr)
 		case "DivMod":
@@ -292,6 +294,8 @@ func applyStep(regs []*apd.BigInt, mir []*big.Int, st *BStep) {
 			z.SetBit(x, st.Aux, 1)
 		case "Exp":
 			z.Exp(x, apd.NewBigInt(int64(st.Aux)), nil)
+		case "ExpMod":
+			z.Exp(x, apd.NewBigInt(int64(st.Aux)), y)
 		case "QuoRem":
 			z.QuoRem(x, y, r)
 		case "DivMod":
@@ -458,6 +462,11 @@ func (r *Rand) bigStep() BStep {
 		st.Aux = []int{0, 1, 31, 32, 63, 64, 65, 127, 128, 129, r.Intn(300)}[r.Intn(11)]
 	case "Exp":
 		st.Aux = r.Intn(6)
+	case "ExpMod":
+		st.Aux = r.Intn(6)
+		if st.Z == st.Y {
+			st.Z = (st.Y + 1) % nRegs
+		}
 	case "Text":
 		st.Aux = []int{2, 8, 10, 16, 36, 62}[r.Intn(6)]
 	case "SetInt64":
